@@ -415,7 +415,12 @@ func (ctx drawContext) drawBackground(bg *bo.Background, clipBox bool, bleed bo.
 
 	ctx.dst.OnNewStack(func() {
 		if clipBox {
-			for _, box := range bg.Layers[len(bg.Layers)-1].ClippedBoxes {
+			clippedBoxes := bg.Layers[len(bg.Layers)-1].ClippedBoxes
+			if len(clippedBoxes) == 0 {
+				// nothing is visible: do not clip with an empty path
+				return
+			}
+			for _, box := range clippedBoxes {
 				roundedBoxPath(ctx.dst, box)
 			}
 			ctx.dst.State().Clip(false)
